@@ -124,7 +124,7 @@ func (k *checker) roundTrip(p *profile.Profile, m mode) {
 	c := k.c
 	c.Eval()
 	s0 := Snapshot(p)
-	n0 := s0.Normalize()
+	n0 := s0.AsRead()
 	drop := s0.Droppable()
 	var b1 []byte
 	var q1 *profile.Profile
